@@ -37,6 +37,7 @@ struct Two {
     opts: OptSpec,
     forms_differ: bool,
     cdata_differ: bool,
+    entity_refs_differ: bool,
 }
 
 fn two(tapes: &Tapes) -> Two {
@@ -58,6 +59,7 @@ fn two(tapes: &Tapes) -> Two {
         opts,
         forms_differ: (sa.selfclosed != sb.selfclosed) || reader_b.expand_empty,
         cdata_differ: sa.cdata != sb.cdata,
+        entity_refs_differ: (sa.entity_refs > 0) != (sb.entity_refs > 0),
     }
 }
 
@@ -93,6 +95,9 @@ impl Property for C11 {
         }
         if t.cdata_differ {
             st.count("text_cdata_swaps");
+        }
+        if t.entity_refs_differ {
+            st.count("text_vs_general_entity_reference");
         }
         if coll {
             st.count("colliding_identifiers");
@@ -198,7 +203,7 @@ impl Property for C11 {
         true
     }
     fn rule(&self) -> String {
-        "small-scope exhaustive: every ordered pair of documents over {r; a,b; k; text} with <= 3 (thorough: 4) elements, each document in two fixed surface forms (all combinations, plus expand_empty_elements and a 1-byte chunked reader); sampled: one tape-decoded structural model (document sequence, pools weighted towards colliding identifiers) is serialised twice with two independent surface tapes (attribute values, text content incl. blank vs non-blank, text vs CDATA, comments, PIs, declaration, DOCTYPE, BOM, `<x/>` vs `<x></x>`, whitespace in tags); variant B is additionally read through BufReader capacities 1..8192 or a chunked BufRead and optionally expand_empty_elements; renderings (arbitrary options) must be byte-identical. Non-trivial = the variants differ in an empty-element form or a text/CDATA swap and some struct has colliding field identifiers; distinct by hash of structure plus both byte variants.".into()
+        "small-scope exhaustive: every ordered pair of documents over {r; a,b; k; text} with <= 3 (thorough: 4) elements, each document in two fixed surface forms (all combinations, plus expand_empty_elements and a 1-byte chunked reader); sampled: one tape-decoded structural model (document sequence, pools weighted towards colliding identifiers) is serialised twice with two independent surface tapes (attribute values, text content incl. blank vs non-blank, predefined / numeric references and references to general entities declared in the internal DTD subset, text vs CDATA, comments, PIs, declaration, DOCTYPE, BOM, `<x/>` vs `<x></x>`, whitespace in tags); variant B is additionally read through BufReader capacities 1..8192 or a chunked BufRead and optionally expand_empty_elements; renderings (arbitrary options) must be byte-identical. Non-trivial = the variants differ in an empty-element form or a text/CDATA swap and some struct has colliding field identifiers; distinct by hash of structure plus both byte variants.".into()
     }
     fn assumptions(&self) -> Vec<String> {
         vec![
@@ -210,6 +215,6 @@ impl Property for C11 {
         describe_two(&two(tapes))
     }
     fn health(&self, _tier: Tier) -> Vec<(&'static str, u64)> {
-        vec![("nontrivial", 3000), ("empty_element_forms_differ", 5000), ("text_cdata_swaps", 5000), ("expand_empty_elements", 2000), ("reader.chunked", 2000), ("reader.bufreader", 2000)]
+        vec![("nontrivial", 3000), ("empty_element_forms_differ", 5000), ("text_cdata_swaps", 5000), ("text_vs_general_entity_reference", 1000), ("expand_empty_elements", 2000), ("reader.chunked", 2000), ("reader.bufreader", 2000)]
     }
 }
